@@ -197,7 +197,7 @@ def tlc(ctx, module, cfg, workers=None, env=None, timeout=900, args=(), deque=Fa
     """Run TLC on spec file `module` (path to .tla) with config `cfg`. Returns TlcResult."""
     cwd = cwd or os.path.dirname(module)
     meta = ctx.fresh_dir('tlc-' + (label or os.path.basename(cfg)))
-    jopts = ['-XX:+UseParallelGC']
+    jopts = ['-XX:+UseParallelGC', '-Xss64m']   # deep recursion of per-byte operators on long inputs
     if heap:
         jopts.append('-Xmx' + heap)
     if deque:
